@@ -149,7 +149,7 @@ def _classify(op, a, b):
 
 
 PROP = {
-    "thm": ["Umya.Thm.C03", "Umya.Thm.C03Cell", "Umya.Thm.C03Sheet", "Umya.Thm.C03Gen", "Umya.Thm.C03Book", "Umya.Thm.C03Names", "Umya.Thm.C03Store"],
+    "thm": ["Umya.Thm.C03", "Umya.Thm.C03Cell", "Umya.Thm.C03Sheet", "Umya.Thm.C03Gen", "Umya.Thm.C03Book", "Umya.Thm.C03Names", "Umya.Thm.C03Store", "Umya.Thm.C03StoreSorted"],
     "harness": "c03",
     "level": "translation_validation",
     "stateful": True,
@@ -190,7 +190,11 @@ PROP = {
                   "an association list whose insert removes the old entry): C03_store_last_wins (for EVERY list of cells a look-up at (row, column) returns the LAST cell of the list at that position; C03_last_at_meaning: = getLast? of the filtered list; "
                   "C03_store_is_map: no position twice), C03_sheet_store (for every validSheetData - which ALLOWS a position to occur any number of times, in one row or in repeated rows - every translator T and every position the store the reader model fills and the "
                   "store filled from the decoder's cell list show the same cell or both nothing: equal as maps; C03_sheet_store_decoder with the spec's translator), C03_book_store (under the hypotheses of C03_book_any, for every sheet index and every position "
-                  "the library model's store and the decoder's store agree). C03_sheet_part_last: for ANY workbook relationship list, ids duplicated or not, the model reads a sheet from the part of the LAST relationship with the sheet's r:id (as reader/xlsx.rs does) "
+                  "the library model's store and the decoder's store agree). The SORTED enumeration get_cell_collection_sorted (Store.sorted = merge sort of the store's entries by (row, column); Thm/C03StoreSorted.lean, lemmas Lemmas/CellStoreSorted.lean over core List.mergeSort_perm / pairwise_mergeSort): "
+                  "C03_store_sorted_perm (the sorted entries are a permutation of the store), C03_store_sorted_strict (no position twice => positions of the sorted entries strictlySorted), C03_store_sorted_key_injective (the order is antisymmetric and total on positions themselves: "
+                  "the key is the position, no side condition), C03_store_sorted_eq (ANY two stores, any value types compared through any f, g, with no position twice and the same look-up at every position have EQUAL sorted lists and equal position lists; _same: one value type), "
+                  "C03_sheet_store_sorted (hypotheses of C03_sheet_store: the reader model's and the decoder's sorted cell lists show the same views AS LISTS, every translator, both panic together), C03_book_store_sorted (hypotheses of C03_book_store: the same for every sheet index). "
+                  "C03_sheet_part_last: for ANY workbook relationship list, ids duplicated or not, the model reads a sheet from the part of the LAST relationship with the sheet's r:id (as reader/xlsx.rs does) "
                   "= the decoder's path rule applied to the LAST of the decoder's relationships with that Id; C03_sheet_part (hypothesis: at most one relationship with that id) then gives the decoder's choice (the first). "
                   "Style resolution through cellXfs (Thm/C03Book.lean, model Umya/Model/ReaderStyle.lean built from the C05 codec models Umya.StyleCodec.*.read and Umya.Style.pick; decoder Spec.Sml.styleTable, "
                   "extended for this from ECMA-376 18.8 with FontV / FillV / BorderV / AlignV / ProtV and the apply* attributes): C03_style_resolution (for EVERY styles.xml tree with the explicit decidable validStyles - any "
@@ -227,7 +231,8 @@ PROP = {
                         "C03_merges", "C03_defined_names", "C03_defined_name_areas", "C03_names_home", "C03_sheet_paths", "C03_sheet_part",
                         "C03_table_columns", "C03_book_sheet", "C03_book",
                         "C03_merge_ref_grammar", "C03_merges_canonical", "C03_defined_names_any_spelling", "C03_canon_text_meaning",
-                        "C03_canon_text_library_spelling", "C03_sheet_part_last", "C03_store_last_wins", "C03_last_at_meaning", "C03_store_is_map", "C03_sheet_store", "C03_sheet_store_decoder", "C03_book_any", "C03_book_store"],
+                        "C03_canon_text_library_spelling", "C03_sheet_part_last", "C03_store_last_wins", "C03_last_at_meaning", "C03_store_is_map", "C03_sheet_store", "C03_sheet_store_decoder", "C03_book_any", "C03_book_store",
+                        "C03_store_sorted_perm", "C03_store_sorted_strict", "C03_store_sorted_key_injective", "C03_store_sorted_eq", "C03_store_sorted_eq_same", "C03_sheet_store_sorted", "C03_book_store_sorted"],
     "rule": "case = one xlsx file: `c03 reset file <corpus file>`, `c03 reset gen <seed>` (grammar derivation from the seed; productions listed at the top of harness/src/c03.rs and "
             "counted as prod.* in the distribution: cell encodings t=absent/n/s/str/inlineStr/b/e with and without formula, number forms, shared/inline strings plain/rich/phonetic/"
             "xml:space/looks-typed, entities and character references in text and attributes, shared-formula blocks with the master anywhere in its ref and children right/below/"
@@ -279,7 +284,7 @@ PROP = {
                     "(the library matches unprefixed names only); character data directly inside <c> is not modelled; usize is 64 bits",
                     "Rust's f64 parser is correctly rounded (the spec side computes the nearest binary64 exactly with integer arithmetic)"],
     "partial_clauses": ["whole-file agreement: C03_book composes the per-part theorems into one statement about a package for the modelled skeleton (sheet list with path resolution, cells, style facts, merges, hyperlinks, defined names with homes); what stays per file: zip access and XML parsing (lookupOf), "
-                        "the fixed part names the library opens vs the relationships (workbook, sharedStrings, styles), the name of a sheet's relationships part (relsPartOf vs relsNameOf, an equation of look-ups in the hypothesis), the sorted enumeration of the cell store (C03_book_store compares the stores position by position), "
+                        "the fixed part names the library opens vs the relationships (workbook, sharedStrings, styles), the name of a sheet's relationships part (relsPartOf vs relsNameOf, an equation of look-ups in the hypothesis), "
                         "the tree abstraction (tag forms, comments, CDATA: `unmodelled`), and everything outside the skeleton (columns, rows, tables inside the book statement, active tab, charts, drawings, comments, conditional formats, data validations); no kernel-checked instance of ALL hypotheses of C03_book at once (Node / Rel have no decidable equality): each hypothesis has its own example, examplePkg is evaluated, edge 14 replays the shape",
                         "defined names in another spelling than the library prints (Sheet1!$A$1 as Excel writes it): now C03_defined_names_any_spelling - hypothesis nameTextAnyB (decidable, Model/CoordCanon.lean; the driver prints names-any-ok per file): not an area list, or a list of qualifier!cell / qualifier!cell:cell with the qualifier unquoted (a legal name without ' ( ) \" ,) or in apostrophes with doubled apostrophes, cells in canonical spelling. The statement is reader text = canonText(decoder text), NOT equality of texts: the library re-quotes every qualifier by its own rule (C17_quote_rule), so the file text Sheet1!$A$1 is shown as 'Sheet1'!$A$1 (confirmed on the implementation); canonText keeps the areas and is idempotent (C03_canon_text_meaning), and is the identity on NameTextOk texts (C03_canon_text_library_spelling). C03_book_any is C03_book under nameTextAnyB with the names compared through canonNameV (C03_book itself keeps NameTextOk and plain equality). In the per-file view both sides are compared with every plain qualifier quoted (quote_qualifiers / canonName, below the abstraction: that canonicaliser is the harness's, not canonText). Still outside: rows with leading zeros (Sheet1!$A$01: read, printed without the zero), unqualified areas ($A$1), unquoted qualifiers containing ' ( ) \" , ",
                         "duplicated workbook relationship ids: the model now follows the code (sheetRel: the LAST relationship with the sheet's r:id, C03_sheet_part_last; the decoder takes the FIRST and reports a diagnostic; SheetValid / C03_book ask for exactly one relationship per sheet id; edge 15 replays a duplicate: `c03 decode` then compares only the head of the view - active tab, sheet list, names -, `c03 model` compares the sheet read through the last relationship with the library). readSheetB also models that the code opens the part of EVERY relationship with the sheet's id (by_name(..).unwrap()): a missing part of the last OR of an earlier one is a panic (`none`); this branch is modelled from the source text and exercised by no package of the run (the library panics there, the decoder reports a missing part: nothing to compare)",
@@ -289,7 +294,7 @@ PROP = {
                         "validSheetData requires well-formed shared groups (groupsOk: the first f t=shared of an si carries the text, later ones none): a child that precedes its master or carries its own text is outside "
                         "(the code then anchors the group at the first cell seen / overwrites the child's text with the translated master; not replayed as a boundary package)",
                         "C03_merges_partial / C03_defined_names_partial are kept next to the full C03_merges / C03_defined_names (older statements about the loops only)",
-                        "cells.set_fast (last write wins per position) is now in the theorems (C03_store_last_wins, C03_sheet_store, C03_book_store: look-ups at every position agree); what is still only in the driver: the ENUMERATION get_cell_collection_sorted (Store.sorted = mergeSort of the store's entries by (row, column); no theorem that the two sorted lists are equal - it follows from equal maps with unique keys but is not proved), and the store is run by the driver only for sheets of at most 4000 cells (association list, quadratic; larger sheets go through the older sort-and-keep-last sortedCellsF: store-sheets=k/n in the informational part of `c03 model`); the decoder's view of a sheet whose cells are not strictly increasing by position is printed through the same store (specStoreCells: last of a position counts, ECMA-376 is silent on repeated positions) - edge 16 replays A1 three times",
+                        "cells.set_fast (last write wins per position) is now in the theorems (C03_store_last_wins, C03_sheet_store, C03_book_store: look-ups at every position agree); the ENUMERATION get_cell_collection_sorted (Store.sorted = mergeSort of the store's entries by (row, column)) is in the theorems too (C03_store_sorted_eq: equal maps with unique keys have equal sorted lists; C03_sheet_store_sorted, C03_book_store_sorted: the two sides' sorted view lists are equal) - what these do NOT say: that the Rust sort_by of get_cell_collection_sorted is this merge sort (the model's Store.sorted against the library is the per-file comparison of `c03 model`; any correct sort by (row, column) of a map with unique keys gives the same list, by C03_store_sorted_strict + uniqueness of a strictly sorted enumeration); what is still only in the driver: the store is run by the driver only for sheets of at most 4000 cells (association list, quadratic; larger sheets go through the older sort-and-keep-last sortedCellsF: store-sheets=k/n in the informational part of `c03 model`); the decoder's view of a sheet whose cells are not strictly increasing by position is printed through the same store (specStoreCells: last of a position counts, ECMA-376 is silent on repeated positions) - edge 16 replays A1 three times",
                         "C03_cell / C03_positions are theorems about the hand-written model of Cell::set_attributes / Row::set_attributes; the model is tied to the code through the per-file runs only "
                         "(model vs spec on every cell and sheetData, spec vs implementation by the oracle), there is no mechanical extraction of the model from the Rust",
                         "two conjuncts of validCell exclude schema-valid cells on which the code deviates from the spec (proved witnesses, replayed as boundary packages, known findings): a string item with "
